@@ -120,7 +120,7 @@ theorem fit_main {caps : List ℝ} {mr ts tol E T V P cap init : ℝ} {fuel : Na
       linarith [hd.tol_pos]
     · intro _
       exact ⟨closed_flow hm hd.T_pos hd.ts_lt hδ hcl, closed_free hm hd.T_pos hd.ts_lt hδ⟩
-  | bisect s hncl hfeas hs1 htol hi =>
+  | bisect s hncl hfeas hs1 _hlb htol hi =>
     rw [closed_eq] at hncl htol
     simp only at hncl htol
     obtain ⟨hg1, hg2⟩ := delta_le_free (m := fitM mr V P cap) (T := T) (ts := ts) (s := s) hm hd.T_pos hd.ts_lt hs1
